@@ -52,6 +52,11 @@ def run(ctx):
             ctx.unrecognised('S13.8', 'Node::' + name, 'missing', 'evaluator not found')
             continue
         evaluator(_Renamed(ctx, 'S13.8'), prog, f, name, opname)
+    # S13.9 "never evaluates successfully": through every entry point - each typed / string-level form reaches the tree builder and
+    # the root evaluator exactly once and answers from nothing else (the base-call part of the C12 entry-point analysis, as C08 R8.7):
+    # a literal fast path in `eval_number` that parses the text itself accepts `+1`
+    from rules.c08 import r87
+    r87(ctx, prog, rule='S13.9')
 
 
 def s13_7(ctx, prog):
